@@ -63,9 +63,10 @@ theorem crc_is_castagnoli : Gen.Journal.crcTable = "crc32.MakeTable(crc32.Castag
 peek 4, `l == 0`, `l > journalWriterBuffSize`, peek l, validate, read, callback, advance -/
 theorem scan_flow :
     Gen.Journal.scanFlow =
-      ["call bufio.NewReaderSize", "if ctx.Err() != nil", "if err != nil", "call rdr.Peek", "call readUint32",
-       "if l == 0", "if l > journalWriterBuffSize", "if warningsCb != nil", "if err != nil", "call rdr.Peek",
-       "if validationErr != nil", "call validateJournalRecord", "if warningsCb != nil", "if err != nil",
+      ["set recovered = false", "call bufio.NewReaderSize", "if ctx.Err() != nil", "if err != nil", "call rdr.Peek",
+       "call readUint32", "if l == 0", "set recovered = true", "if l > journalWriterBuffSize", "if warningsCb != nil",
+       "set recovered = true", "if err != nil", "call rdr.Peek", "set recovered = true", "if validationErr != nil",
+       "call validateJournalRecord", "if warningsCb != nil", "set recovered = true", "if err != nil",
        "call readJournalRecord", "if err != nil", "call cb", "if err != nil", "call io.ReadFull"] := by decide
 
 /-- `processJournalRecords`: scan, then (only in the recovery state) the data-loss check, then
